@@ -178,6 +178,11 @@ func (f *OrefaFile) Read(b []byte) (n int, err error) {
 		return 0, &fs.PathError{Op: op, Path: f.name, Err: fs.ErrClosed}
 	}
 
+	if len(b) == 0 {
+		// a zero length read returns at once, whatever the file is (see os.File).
+		return 0, nil
+	}
+
 	nd := f.nd
 	if nd.mode.IsDir() {
 		err = avfs.ErrIsADirectory
@@ -227,8 +232,16 @@ func (f *OrefaFile) ReadAt(b []byte, off int64) (n int, err error) {
 		return 0, fs.ErrInvalid
 	}
 
+	if off < 0 {
+		return 0, &fs.PathError{Op: "readat", Path: f.name, Err: avfs.ErrNegativeOffset}
+	}
+
 	if f.nd == nil {
 		return 0, &fs.PathError{Op: op, Path: f.name, Err: fs.ErrClosed}
+	}
+
+	if len(b) == 0 {
+		return 0, nil
 	}
 
 	nd := f.nd
@@ -239,10 +252,6 @@ func (f *OrefaFile) ReadAt(b []byte, off int64) (n int, err error) {
 		}
 
 		return 0, &fs.PathError{Op: op, Path: f.name, Err: err}
-	}
-
-	if off < 0 {
-		return 0, &fs.PathError{Op: "readat", Path: f.name, Err: avfs.ErrNegativeOffset}
 	}
 
 	if f.openMode&avfs.OpenRead == 0 {
@@ -611,6 +620,11 @@ func (f *OrefaFile) Write(b []byte) (n int, err error) {
 		return 0, &fs.PathError{Op: op, Path: f.name, Err: fs.ErrClosed}
 	}
 
+	if len(b) == 0 {
+		// a zero length write returns at once and does not move the offset (see os.File).
+		return 0, nil
+	}
+
 	nd := f.nd
 	if nd.mode.IsDir() {
 		err = avfs.ErrBadFileDesc
@@ -665,6 +679,10 @@ func (f *OrefaFile) WriteAt(b []byte, off int64) (n int, err error) {
 
 	if f == nil {
 		return 0, fs.ErrInvalid
+	}
+
+	if f.openMode&avfs.OpenAppend != 0 {
+		return 0, avfs.ErrWriteAtInAppendMode
 	}
 
 	if off < 0 {
